@@ -99,6 +99,7 @@ void World::hostile_finish(const std::string& op)
         check_purity_end("observe2");
         if (cur.serialize() != again.serialize())
             report("C16", "C16|observe|" + fam() + "|answers-differ", "two consecutive observations differ after " + op);
+        purity_extras();
         probes.hit("purity_checked");
     }
     if (check(CK_MODEL))
